@@ -1,5 +1,6 @@
 import PPLV.Lin.Decide
 import PPLV.Lin.Ops
+import PPLV.Lin.OpSpecs
 
 /-!
 # C01 — a polyhedron answers every query from one point set, whatever its history
@@ -75,5 +76,63 @@ theorem indistinguishable (p r q : RefPoly) (hn : p.n = r.n)
   · rw [Bool.eq_iff_iff, query_disjoint_iff p q hp hq, query_disjoint_iff r q hr hq', h]
 
 example : (univ false 2).isEmpty = false ∧ (emptyP false 2).isEmpty = true := by decide +kernel
+
+/-! ### the two descriptions, optimisation, boundedness, membership -/
+
+/-- the unit segment, used in the examples below -/
+def seg : RefPoly := ⟨false, 1, [geRow [1] 0, geRow [-1] 1]⟩
+
+/-- The constraint description and the generator description (`GenSem`: the documented
+    `linear.hull(L) + conic.hull(R) + NNC.hull(P, C)`) denote the same set iff the judge says so. -/
+theorem descriptions_agree_iff (n : Nat) (cs : List Con) (gs : List Gen) (h1 : WF n cs)
+    (h2 : gensWF n gs = true) : checkDD n cs gs = true ↔ sem cs = GenSem n gs :=
+  checkDD_iff_genSem n cs gs h1 h2
+
+example : checkDD 1 seg.cs [⟨.point, [0], 1⟩, ⟨.point, [2], 2⟩] = true ∧
+    checkDD 1 seg.cs [⟨.point, [0], 1⟩, ⟨.cpoint, [1], 1⟩] = false := by decide +kernel
+
+/-- `maximize(e, …)`: the answer classifies `sup {e(x) | x ∈ P}` exactly — empty, unbounded, or
+    the rational value `a/b` together with whether it is attained (`maximum` flag). -/
+theorem optimum_spec (p : RefPoly) (e : LinExpr) (hp : WF p.n p.cs) (he : e.coeffs.length ≤ p.n) :
+    match p.sup e with
+    | .empty => sem p.cs = ∅
+    | .unbounded => (∃ x, x ∈ sem p.cs) ∧ ∀ M : Rat, ∃ x ∈ sem p.cs, M < e.val x
+    | .val a b att => 0 < b ∧ (∀ x ∈ sem p.cs, e.val x ≤ (a : Rat) / b) ∧
+        (att = true → ∃ x ∈ sem p.cs, e.val x = (a : Rat) / b) ∧
+        (att = false → (∀ x ∈ sem p.cs, e.val x < (a : Rat) / b) ∧
+          ∀ ε : Rat, 0 < ε → ∃ x ∈ sem p.cs, (a : Rat) / b - ε < e.val x) :=
+  sup_spec p e hp he
+
+/-- `minimize(e, …)` -/
+theorem optimum_min_spec (p : RefPoly) (e : LinExpr) (hp : WF p.n p.cs) (he : e.coeffs.length ≤ p.n) :
+    match p.inf e with
+    | .empty => sem p.cs = ∅
+    | .unbounded => (∃ x, x ∈ sem p.cs) ∧ ∀ M : Rat, ∃ x ∈ sem p.cs, e.val x < M
+    | .val a b att => 0 < b ∧ (∀ x ∈ sem p.cs, (a : Rat) / b ≤ e.val x) ∧
+        (att = true → ∃ x ∈ sem p.cs, e.val x = (a : Rat) / b) ∧
+        (att = false → (∀ x ∈ sem p.cs, (a : Rat) / b < e.val x) ∧
+          ∀ ε : Rat, 0 < ε → ∃ x ∈ sem p.cs, e.val x < (a : Rat) / b + ε) :=
+  inf_spec p e hp he
+
+example : seg.sup ⟨[2], 1⟩ = .val 3 1 true ∧ seg.inf ⟨[2], 1⟩ = .val 1 1 true ∧
+    RefPoly.sup ⟨true, 1, [gtRow [-1] 1]⟩ ⟨[1], 0⟩ = .val 1 1 false ∧
+    RefPoly.inf ⟨true, 1, [gtRow [-1] 1]⟩ ⟨[1], 0⟩ = .unbounded := by decide +kernel
+
+/-- `is_bounded()`, one direction only: an empty or bounded set is judged bounded.
+    Missing: the converse (`isBounded = true` ⇒ empty or bounded), which needs the theorem that a
+    polyhedron with trivial recession cone is bounded (Minkowski–Weyl); not proved here. -/
+theorem query_is_bounded_partial (p : RefPoly) (hp : WF p.n p.cs)
+    (h : sem p.cs = ∅ ∨ ∃ M : Rat, ∀ x ∈ sem p.cs, ∀ i < p.n, |x i| ≤ M) :
+    p.isBounded = true := isBounded_of_bounded p hp h
+
+example : seg.isBounded = true ∧ RefPoly.isBounded ⟨false, 1, [geRow [1] 0]⟩ = false := by
+  decide +kernel
+
+/-- point membership (`relation_with(point)`, `contains` of a point): the rational point
+    `num/den` (coordinates beyond `num.length` are `0`) belongs to the set iff the judge says so. -/
+theorem point_membership (p : RefPoly) (num : List Int) (den : Int) (hd : 0 < den) :
+    p.hasPoint num den = true ↔ ratPoint num den ∈ sem p.cs := hasPoint_iff p num den hd
+
+example : seg.hasPoint [1] 2 = true ∧ seg.hasPoint [3] 2 = false := by decide
 
 end C01
